@@ -1,6 +1,6 @@
 (* One entry point for the extracted model: property number, case integers -> observation. *)
 From Coq Require Import List ZArith Bool.
-From IdV Require Import Lib.Wire Run.C19Run Run.C12Run Run.C13Run Run.C11Run Run.C18Run Run.C10Run Run.JwsRun Run.C04Run Run.C09Run Run.C20Run Run.C14Run Run.C07Run Run.C02Run Run.C03Run Run.C06Run Run.C16Run Run.C15Run.
+From IdV Require Import Lib.Wire Run.C19Run Run.C12Run Run.C13Run Run.C11Run Run.C18Run Run.C10Run Run.JwsRun Run.C04Run Run.C09Run Run.C20Run Run.C14Run Run.C07Run Run.C02Run Run.C03Run Run.C06Run Run.C16Run Run.C15Run Run.C05Run.
 Import ListNotations.
 Open Scope Z_scope.
 
@@ -14,6 +14,7 @@ Definition run_case (prop : Z) (input : list Z) : list Z :=
   else if prop =? 6 then c06_run input
   else if prop =? 16 then c16_run input
   else if prop =? 15 then c15_run input
+  else if prop =? 5 then c05_run input
   else if (prop =? 1) || (prop =? 8) then jws_run input
   else if prop =? 4 then c04_run input
   else if prop =? 9 then c09_run input
